@@ -178,6 +178,18 @@ def export_zones(ctx):
     return None
 
 
+def export_far_zones(ctx):
+    """Footer-rule transitions of years 2400, 2801, 5000 and 9998 (by Python zoneinfo) for the C15 far-future windows."""
+    import os, subprocess, sys
+    dest = os.path.join(ctx["build"], "zones_far.tbl")
+    if os.path.exists(dest) and os.path.getsize(dest) > 10000:
+        return None
+    r = subprocess.run([sys.executable, os.path.join(ctx["verif"], "oracle_py", "export_zones.py"), "--far", dest], capture_output=True, text=True)
+    if r.returncode != 0:
+        return (r.stdout + r.stderr)[-800:]
+    return None
+
+
 PROPS["C13"] = {
     "builds": ["chk", "rel"],
     "pre": [export_zones],
@@ -217,6 +229,25 @@ PROPS["C14"] = {
         "technique": "runtime monitoring: transcribed zoned-arithmetic reference model over brute-force transition tables plus the property's laws evaluated on observed results, two builds",
         "text": "Every observed ZonedDateTime add/subtract/until/since/start_of_day/hours_in_day/with_plain_time result, and Duration total/round/compare relative to a zoned date-time, is compared with a reference model over explicit transition tables (directed, synthetic and real zones), and the inverse / sign / day-length laws are evaluated on the implementation's own until() output. Workloads concentrate within a day of transitions, on pairs that straddle one with reversed time-of-day order, and on days that are not 24 h long. Holds on the executions generated.",
         "note": "Trusted: zones.rs reference functions, refmodel::date/dur, exported tz tables. One listed known finding: the add(until) law for a receiver that is the later occurrence of a repeated time when the date part of the result is zero (behaviour mandated by the specification's algorithm).",
+    },
+}
+
+PROPS["C15"] = {
+    "builds": ["chk", "rel"],
+    "pre": [export_zones, export_far_zones],
+    "rule": ("every zone name of the system tzdata.zi (quick: a seed-dependent third plus nine fixed zones of distinct classes; thorough: all ~597) in a seed-dependent order against one "
+             "long-lived FsTzdbProvider per shard: instants at each chosen transition +- {0, 1 ns, 1 s, half/whole/over the change, 3 h +- 1 s, 1 day}, random instants of years 1..2119, "
+             "and, for zones with a DST rule in the footer, every rule transition of the years 2400, 2801, 5000 and 9998 +- {1 ns, 1 s, 1 h, 1 day}; per instant: offset from "
+             "get_named_tz_offset_nanoseconds vs the table exported by Python zoneinfo from the same TZif files, the wall-clock reading on either side of the transition through "
+             "get_named_tz_epoch_nanoseconds vs the brute-force set of instants, and both answers again from a brand-new provider (history independence); shard 0 also runs "
+             "check_identifier on every IANA name, three case/near-miss manglings of each, and junk names. non-trivial = instant within a day of a transition or a skipped/repeated wall "
+             "time; distinct by (zone, instant) fingerprint; counters per era: before-first-transition, negative-epoch, table, after-2038, footer-rule, far-future-footer-rule"),
+    "assumptions": ["Python zoneinfo over the same /usr/share/zoneinfo files is the independent TZif + POSIX-TZ reader; the exporter re-verifies every exported transition at t-1, t",
+                    "'Factory' (in tzdata.zi, not an IANA time zone identifier for Temporal) is not judged"],
+    "manifest": {
+        "technique": "runtime monitoring: differential oracle (independent TZif reader: Python zoneinfo, exported offline) over observed FsTzdbProvider answers, plus new-provider-vs-long-lived-provider comparison for history independence, two builds",
+        "text": "Each answer of the bundled file-system provider (offset at an instant, instants of a wall-clock reading, identifier check) is compared with what an independent reader of the same TZif files says, across table, pre-table, post-2038 and footer-rule eras including rule transitions up to year 9998, and with the answer of a fresh provider instance so that cache effects show. Zone order is seed-dependent; thorough covers every zone of the database.",
+        "note": "Trusted: Python zoneinfo, the exporter (self-checking), zones.rs reference functions. Instants before year 1 and after 9999 are outside the property.",
     },
 }
 
